@@ -161,7 +161,7 @@ build_query = REG.unit(Unit(
     loops={1: LoopSpec("filters", index="_f", invariants=[
         ("limit-capped", "implies(limit is not None, 0 <= limit and limit <= self.default_limit)"),
     ])},
-    props=["C01", "C12"],
+    props=["C01", "C12", "C11", "C02"],
     canaries=[("never-returns", "False")],
 ))
 build_query.local_types = {"where": V.Set(V.Str), "subwhere": {"emptylist": V.List(V.Str)}, "new_filters": V.List(QUERY), "limit": V.Opt(V.Int)}
@@ -173,7 +173,8 @@ build_query.stmt_hints = [
                               ("limit-literal-is-capped", "limit is not None and 0 <= limit and limit <= self.default_limit")]),
 ]
 build_query.refined = {"where": ("sql_conj", CONJ)}   # every disjunct is a conjunction of atoms or 'false' (obligation at each where.add)
-build_query.obligation_props = [("limit", ["C12"]), ("", ["C01"])]
+# a rejected filter must contribute `false` (C11: adding a condition never adds results; C02/C01: the statement means the filters)
+build_query.obligation_props = [("limit", ["C12"]), ("join:subwhere", ["C01", "C11", "C02"]), ("element-in-sql_conj", ["C01", "C11", "C02"]), ("", ["C01"])]
 REG.contracts["SQLSubscription.evaluate_filter"] = evaluate_filter.contract
 
 
